@@ -365,6 +365,62 @@ fn connect(a: &mut AState) {
     }
 }
 
+/// Raw ops that turn `from` into `to` by overwriting in place: one op per differing element,
+/// applied one at a time in this order (attachment clears, edge deletes, node deletes, node
+/// upserts, edge upserts incl. re-parenting, attachment sets). None if instances differ.
+fn raw_upsert_ops(from: &AState, to: &AState) -> Option<Vec<warp_core::WarpOp>> {
+    use warp_core::{EdgeRecord, NodeRecord, WarpOp};
+    let mut ops = Vec::new();
+    for (w, tw) in &to.warps {
+        let fw = from.warps.get(w)?;
+        if fw.root_node != tw.root_node || fw.parent != tw.parent {
+            return None;
+        }
+        for n in fw.natt.keys().filter(|n| !tw.natt.contains_key(n) && tw.nodes.contains_key(n)) {
+            ops.push(WarpOp::SetAttachment { key: ASlot::Node(*w, *n).key(), value: None });
+        }
+        for e in fw.eatt.keys().filter(|e| !tw.eatt.contains_key(e) && tw.edges.contains_key(e)) {
+            ops.push(WarpOp::SetAttachment { key: ASlot::Edge(*w, *e).key(), value: None });
+        }
+        for (e, r) in fw.edges.iter().filter(|(e, _)| !tw.edges.contains_key(e)) {
+            ops.push(WarpOp::DeleteEdge { warp_id: warp_id(*w), from: node_id(r.from), edge_id: edge_id(*e) });
+        }
+    }
+    for (w, tw) in &to.warps {
+        let fw = &from.warps[w];
+        // nodes that disappear must be isolated by now: edges that touch them are moved first
+        for (e, r) in &tw.edges {
+            if fw.edges.get(e) != Some(r) && fw.edges.contains_key(e) {
+                ops.push(WarpOp::UpsertEdge { warp_id: warp_id(*w), record: EdgeRecord { id: edge_id(*e), from: node_id(r.from), to: node_id(r.to), ty: type_id(r.ty) } });
+            }
+        }
+        for (n, ty) in &tw.nodes {
+            if fw.nodes.get(n) != Some(ty) {
+                ops.push(WarpOp::UpsertNode { node: node_key(*w, *n), record: NodeRecord { ty: type_id(*ty) } });
+            }
+        }
+        for (e, r) in &tw.edges {
+            if !fw.edges.contains_key(e) {
+                ops.push(WarpOp::UpsertEdge { warp_id: warp_id(*w), record: EdgeRecord { id: edge_id(*e), from: node_id(r.from), to: node_id(r.to), ty: type_id(r.ty) } });
+            }
+        }
+        for n in fw.nodes.keys().filter(|n| !tw.nodes.contains_key(n)) {
+            ops.push(WarpOp::DeleteNode { node: node_key(*w, *n) });
+        }
+        for (n, v) in &tw.natt {
+            if fw.natt.get(n) != Some(v) {
+                ops.push(WarpOp::SetAttachment { key: ASlot::Node(*w, *n).key(), value: Some(v.to_real()) });
+            }
+        }
+        for (e, v) in &tw.eatt {
+            if fw.eatt.get(e) != Some(v) {
+                ops.push(WarpOp::SetAttachment { key: ASlot::Edge(*w, *e).key(), value: Some(v.to_real()) });
+            }
+        }
+    }
+    Some(ops)
+}
+
 fn check_c6(_ctx: &Ctx, c: &C6Case, probe: &mut Probe) -> Check {
     let mut a = realise_state(&c.state);
     if c.connect {
@@ -406,6 +462,36 @@ fn check_c6(_ctx: &Ctx, c: &C6Case, probe: &mut Probe) -> Check {
                 vensure!(wsc_bytes(&a, &s)? == wsc0, "C06/wsc/bytes-depend-on-history", "detour");
                 probe.class("detour");
                 evals += 1;
+            }
+        }
+    }
+    // detour through raw upserts: the same abstract state reached by overwriting records in
+    // place (an edge keeps its id while its source/target/type change: the store moves it
+    // between buckets) instead of through delete + insert
+    {
+        let mut alt = a.clone();
+        for m in &c.detour {
+            mutate(&mut alt, m);
+        }
+        if alt != a && alt.warps.keys().eq(a.warps.keys()) {
+            let alt_real = build_real(&alt, &c.orders[0]);
+            if let Some(ops) = raw_upsert_ops(&alt, &a) {
+                let mut s = alt_real.clone();
+                let mut ok = true;
+                for op in &ops {
+                    let patch = warp_core::WarpTickPatchV1::new(0, [0; 32], warp_core::TickCommitStatus::Committed, vec![], vec![], vec![op.clone()]);
+                    if patch.apply_to_state(&mut s).is_err() {
+                        ok = false;
+                        break;
+                    }
+                }
+                if ok && AState::from_real(&s).ok().as_ref() == Some(&a) {
+                    let root = roots(&a, &s)?;
+                    vensure_eq!(root, root0, "C06/root-depends-on-history", "state reached by overwriting records in place from {:?}", alt);
+                    vensure!(wsc_bytes(&a, &s)? == wsc0, "C06/wsc/bytes-depend-on-history", "in-place detour");
+                    probe.class("detour:in-place-upserts");
+                    evals += 1;
+                }
             }
         }
     }
